@@ -386,14 +386,14 @@ Proof.
 Qed.
 
 (* ---- what a sub-run for a related type produces when the sub-selection has no spread ---- *)
-Lemma variant_class_facts C S frs f2 g pa cn t sub tvs qc qp :
-  parse_type_def (Datatypes.S f2) C S frs pa cn t sub true [] (Some tvs) = Ok (qc, qp, false) ->
+Lemma variant_class_facts C S frs f2 g pa cn t sub eb tvs qc qp :
+  parse_type_def (Datatypes.S f2) C S frs pa cn t sub true eb (Some tvs) = Ok (qc, qp, false) ->
   no_spread g sub = true ->
   exists fields0 pfl extra,
     resolve f2 S frs false sub t = Ok (fields0, []) /\
     fields_run (parse_type_def f2 C S frs) C S frs f2 cn t (Some tvs) true
                (add_typename_field true fields0) (pa ++ [cn]) pfl extra qp false /\
-    qc = {| c_name := cn; c_bases := ["BaseModel"]; c_fields := pfl |} :: extra /\
+    qc = {| c_name := cn; c_bases := "BaseModel" :: eb; c_fields := pfl |} :: extra /\
     (forall pf vs, In pf pfl -> p_ann pf = ALit vs -> vs = sort_strings tvs).
 Proof.
   intros H Hns. simpl in H. apply body_inv in H.
